@@ -453,6 +453,17 @@ def main(tier, seed):
     else:
       jobs = [(list(range(lo, lo + 1024)),) for lo in range(-32768, 32768, 1024)]
     out += explore.pmap('vt.checks.c15', 'check_client_errors', jobs, pool, seed)
+    # correlation ids of requests whose deadline fires at any point (in the send queue, on the wire), incl. requests issued while the
+    # transport connects: the Kafka transport on the adversarial-peer harness of C11, every schedule with <= 3 deviations
+    for kname, kp in (('kafka transport: 3 requests issued while it opens, deadlines may fire anywhere',
+                       {'proto': 'kafka', 'ops': [['req', 'a', True], ['req', 'b', True], ['req', 'c']], 'max_adversarial': 0, 'early': True}),
+                      ('kafka transport: 3 requests, deadlines may fire between two ready callbacks',
+                       {'proto': 'kafka', 'ops': [['req', 'a', True], ['req', 'b'], ['req', 'c', True]], 'max_adversarial': 0, 'max_preempt': 1})):
+      b = 3 if tier == 'quick' else 4
+      agg = explore.explore('vt.checks.c11', 'run_exec', kp, b if 'max_preempt' not in kp else b - 1, seed=seed, pool=pool, split_levels=2)
+      agg.violations = [dict(v, clause='C15.correlation', message='Kafka transport: ' + v['message'] + ' (tag = correlation id)')
+                        for v in agg.violations if v['clause'] in ('C11.duplicate-tag', 'C11.answered-twice', 'C11.reserved-tag')]
+      rep.add_explore(kname, agg, b, params=kp)
   finally:
     pool.close()
     pool.join()
